@@ -4,6 +4,7 @@ import (
 	"encoding/json"
 	"fmt"
 	"os"
+	"path/filepath"
 	"strconv"
 	"testing"
 
@@ -116,4 +117,33 @@ func TestDebugSynced(t *testing.T) {
 	}
 	out, err := implSynced(json.RawMessage(`{"ops":["create:a","launch:a","see-claim:a"]}`))
 	fmt.Println(out, err)
+}
+
+// C04_DEBUG=1 go test -tags verif -run TestDebugChurnCorpus ./internal/c04 -v   (prints what the corpus witnesses of c04.churn do)
+func TestDebugChurnCorpus(t *testing.T) {
+	if os.Getenv("C04_DEBUG") == "" {
+		t.Skip("set C04_DEBUG=1")
+	}
+	files, _ := filepath.Glob("../../../corpus/c04.churn/*.json")
+	for _, f := range files {
+		b, _ := os.ReadFile(f)
+		var c struct {
+			In json.RawMessage `json:"in"`
+		}
+		if err := json.Unmarshal(b, &c); err != nil {
+			t.Fatal(err)
+		}
+		out, err := implChurn(c.In)
+		if err != nil {
+			t.Fatal(err)
+		}
+		o := out.(*ChurnOut)
+		fmt.Printf("== %s\n   applied=%v drained=%v\n", filepath.Base(f), o.Applied, o.Drained)
+		for _, e := range o.Outcome.Existing {
+			fmt.Printf("   existing %s <- %v\n", e.Node, e.Pods)
+		}
+		for _, cl := range o.Outcome.Claims {
+			fmt.Printf("   NEW %s %v\n", cl.Pool, cl.Pods)
+		}
+	}
 }
